@@ -46,6 +46,11 @@ func VerifC20ClientV1() {
 		keyRan++
 		return keyVerdict
 	})
+	oddRan := 0
+	c.GetNativeInterpreter().AddMatcher(vTbl, interpreter.ExpressionTypeKey, "begins_with(p, :p)", func(item, attrs map[string]*mtypes.Item) bool {
+		oddRan++
+		return keyVerdict
+	})
 	c.GetNativeInterpreter().AddMatcher(vTbl, interpreter.ExpressionTypeFilter, "v = :x", func(item, attrs map[string]*mtypes.Item) bool {
 		filterRan++
 		return verdict
@@ -59,7 +64,7 @@ func VerifC20ClientV1() {
 	_, perr := c.PutItem(&dynamodb.PutItemInput{TableName: aws.String(vTbl), Item: vItem{"p": vS("k"), "v": vS(v)}})
 	nd.Assert(perr == nil, "setup-put")
 
-	switch nd.Choice("op", 7) {
+	switch nd.Choice("op", 8) {
 	case 0: // registered condition text (with extra blanks)
 		_, err := c.PutItem(&dynamodb.PutItemInput{TableName: aws.String(vTbl), Item: vItem{"p": vS("k"), "v": vS("new")},
 			ConditionExpression: aws.String("  v =  :x "), ExpressionAttributeValues: vItem{":x": vS(x)}})
@@ -137,6 +142,16 @@ func VerifC20ClientV1() {
 		if err == nil {
 			nd.Assert(keyRan == 0 && filterRan == 0, "C20v1-client-key-registration-never-fires-for-a-filter")
 			nd.Assert((len(out.Items) == 1) == (x == "k"), "C20v1-client-unregistered-filter-falls-back")
+		}
+	case 7: // a registered key-condition text need not be one the built-in interpreter would accept
+		if native {
+			nd.Reach("native-odd-key-text")
+			out, err := c.Query(&dynamodb.QueryInput{TableName: aws.String(vTbl), KeyConditionExpression: aws.String("begins_with(p,  :p)"), ExpressionAttributeValues: vItem{":p": vS("k")}})
+			nd.Assert(err == nil, "C20v1-client-registered-key-text-dispatched-noerr")
+			if err == nil {
+				nd.Assert(oddRan >= 1, "C20v1-client-registered-key-text-matcher-ran")
+				nd.Assert((len(out.Items) == 1) == keyVerdict, "C20v1-client-registered-key-text-verdict-decides")
+			}
 		}
 	}
 	nd.Assert(staleRan == 0, "C20v1-client-replaced-registry-never-fires")
